@@ -513,7 +513,11 @@ pub fn default_cfg() -> Cfg {
 pub const SCENARIO_BASE: u64 = 10_000_000;
 /// 0..4: the four scenarios in the canonical process environment; 4..8: the same four under an odd one (Turkish
 /// locale, three CPUs); 8: scenario 0 under an address-space limit (failing allocations).
-pub const SCENARIOS: u64 = 13;
+pub const SCENARIOS: u64 = 15;
+/// Scenario 13: a crowd — twelve clients parked at the same in-build site at the same time, for every site.
+pub const SCENARIO_CROWD: u64 = 13;
+/// Scenario 14: a large foreign build (more than a thousand distinct test cases) in the gap at every visit of a small one.
+pub const SCENARIO_OVERFLOW_IN_GAP: u64 = 14;
 /// Scenario 12: the whole systematic stratum once more, in the odd process environment.
 pub const SCENARIO_SYSTEMATIC_ODD_ENV: u64 = 12;
 pub const SCENARIO_KINDS: u64 = 4;
@@ -548,6 +552,51 @@ fn spec(clients: Vec<Vec<Op>>, rng: &mut Rng, sites: Vec<String>, policy: &str) 
 pub fn scenario_runs(k: u64, verif_seed: u64) -> Vec<RunSpec> {
     if k == SCENARIO_SYSTEMATIC_ODD_ENV {
         return systematic_runs(verif_seed);
+    }
+    if k == SCENARIO_CROWD {
+        // Whatever the library counts, pools or limits process-wide is held by twelve builds at once: for every
+        // site one run in which all twelve clients advance in lock step and are parked there together. The sets nest
+        // repetitions and mix character kinds so that every conversion phase is entered (and re-entered).
+        let mut rng = Rng::new(derive(verif_seed, &[0x43524F57, 0]));
+        let sets: [&[&str]; 3] = [
+            &["aaaabaaaabaaaabaaaab ffxffxffx", "a1a1a1 b2b2", "xyz"],
+            &["ababab cdcdcd ababab cdcdcd", "zz zz zz", "q"],
+            &["1122112211221122", "aXaXaX", "  \t\t  \t\t"],
+        ];
+        let mut runs = vec![];
+        for site in SITES.iter() {
+            let clients: Vec<Vec<Op>> = (0..12)
+                .map(|i| plain_build(sets[i % 3].iter().map(|x| x.to_string()).collect(), vec![Setter::Repetitions, Setter::Digits, Setter::Spaces]))
+                .collect();
+            runs.push(spec(clients, &mut rng, vec![site.to_string()], "round-robin"));
+        }
+        return runs;
+    }
+    if k == SCENARIO_OVERFLOW_IN_GAP {
+        // A bounded process-wide table overflows while another build is under way: at every visit (hook call or call
+        // entry) of a small build the other client builds 1,100 (then 2,100) distinct short test cases.
+        let mut rng = Rng::new(derive(verif_seed, &[0x4F564552, 0]));
+        let mut runs = vec![];
+        for n in [1100usize, 2100] {
+            let big: Vec<String> = (0..n).map(|i| format!("{}{}", ["s", "t", "u"][i % 3], i)).collect();
+            for visit in 1..=36u64 {
+                let victim = vec![
+                    Op::New { slot: 0, cases: vec!["ab".into(), "cd1".into(), "ab".into(), "e f".into()] },
+                    Op::Set { slot: 0, setter: Setter::Digits },
+                    Op::Build { slot: 0 },
+                    Op::Build { slot: 0 },
+                ];
+                let intruder = plain_build(big.clone(), vec![]);
+                runs.push(RunSpec {
+                    clients: vec![ClientSpec { hash_seed: rng.next_u64() | 1, ops: victim }, ClientSpec { hash_seed: rng.next_u64() | 1, ops: intruder }],
+                    sites: vec![],
+                    sched: SchedSpec::List { decisions: vec![0] },
+                    mailboxes: 0,
+                    preempts: vec![Preempt { client: 0, visit, steps: 0, to: 1, via: 0 }],
+                });
+            }
+        }
+        return runs;
     }
     if k >= SCENARIO_MEMORY_LIMITED {
         // one client, two builds of automata with roughly a thousand states (the elimination matrix has states^2 cells)
@@ -746,6 +795,9 @@ pub struct PreemptPair {
     /// build: only the visits of the repeated build are of interest)
     pub skip_ops: usize,
     pub mailboxes: usize,
+    /// upper bound on the positions swept per visit for this world (0 = the tier's default); worlds whose runs are
+    /// expensive are swept more coarsely
+    pub positions_per_visit: usize,
 }
 
 const PREEMPT_ALPHA: [&str; 10] = ["a", "Z", "1", "_", ":", "[", "\u{e9}", " ", "\u{663}", "\u{3b2}"];
@@ -792,6 +844,7 @@ fn pair_plain(v: &[&str], i: &[&str], cv: &[Setter], ci: &[Setter]) -> PreemptPa
         core: false,
         skip_ops: 0,
         mailboxes: 0,
+        positions_per_visit: 0,
     }
 }
 
@@ -813,6 +866,7 @@ fn pair_rebuild(v: &[&str], i: &[&str], c: &[Setter], on_clone: bool) -> Preempt
         core: false,
         skip_ops: skip,
         mailboxes: 0,
+        positions_per_visit: 0,
     }
 }
 
@@ -832,6 +886,28 @@ fn pair_shared(v: &[&str], c: &[Setter], extra: Setter) -> PreemptPair {
         core: false,
         skip_ops: skip,
         mailboxes: 1,
+        positions_per_visit: 0,
+    }
+}
+
+/// A bounded process-wide table overflows in the gap: the victim repeats a small build (only the repetition is
+/// swept, coarsely), the intruder builds more than a thousand distinct test cases, twice (the first build fills
+/// whatever table there is, the second starts with it full).
+fn pair_overflow(n: usize) -> PreemptPair {
+    let mut victim = plain_build(strs(&["ab", "cd1", "e f"]), vec![Setter::Digits]);
+    let skip = victim.len();
+    victim.push(Op::Build { slot: 0 });
+    let big: Vec<String> = (0..n).map(|i| format!("{}{}", ["s", "t", "u"][i % 3], i)).collect();
+    let mut intruder = plain_build(big, vec![]);
+    intruder.push(Op::Build { slot: 0 });
+    PreemptPair {
+        victim,
+        intruder,
+        systematic: true,
+        core: false,
+        skip_ops: skip,
+        mailboxes: 0,
+        positions_per_visit: 40,
     }
 }
 
@@ -861,10 +937,13 @@ fn preempt_pairs_raw(verif_seed: u64, tier: &str) -> Vec<PreemptPair> {
         pair_shared(&["1a"], &none, Setter::Digits),
         pair_shared(&["a1", "b2"], &w, Setter::IgnoreCase),
         pair_plain(&["1a\u{663}"], &["\u{663}", "7"], &d, &d),
+        // nested groups on both sides (whatever is pooled or reused while sub-expressions are rendered)
+        pair_plain(&["abc", "abd", "ab", "xy", "xz"], &["pq", "pqr", "pqs", "yy", "yz"], &none, &none),
     ];
     for p in out.iter_mut() {
         p.core = true;
     }
+    out.push(pair_overflow(1100));
     if tier == "thorough" {
         let victims: [&[&str]; 7] = [&["a1"], &["1a"], &["aZ"], &["a 1"], &["1:a"], &["a", "b", "c"], &["a", "aa", "ab"]];
         let intruders: [&[&str]; 5] = [&[":", "["], &["a"], &["1", " "], &["\u{e1}", "\u{e2}", "\u{e3}"], &["x", "xx", "xy"]];
@@ -909,6 +988,7 @@ fn preempt_pairs_raw(verif_seed: u64, tier: &str) -> Vec<PreemptPair> {
             core: false,
             skip_ops: 0,
             mailboxes: 0,
+            positions_per_visit: 0,
         });
     }
     out
@@ -926,6 +1006,9 @@ pub fn cold_pairs() -> Vec<PreemptPair> {
         pair_plain(&["a", "b", "c."], &["\u{e1}", "b", "c$"], &none, &none),
         pair_plain(&["aaa", "aa."], &["b$b", "1"], &rw, &rw),
         pair_plain(&["a", "aa", "ab"], &["x", "xx", "xy"], &[Setter::NoAnchors], &[Setter::NoAnchors]),
+        // both clients meet the same characters for the first time in the process (several test cases share their
+        // first one): whatever is interned, numbered or registered on first sight is first seen by both at once
+        pair_plain(&["xa", "xbb", "xccc", "xdddd"], &["xa", "xbb", "xccc", "xdddd"], &none, &none),
     ]
 }
 
@@ -937,6 +1020,17 @@ pub fn preempt_run(pair: &PreemptPair, hash_seeds: (u64, u64), visit: u64, steps
 }
 
 pub fn preempt_run_via(pair: &PreemptPair, hash_seeds: (u64, u64), visit: u64, steps: u32, intruder_parked_at: u64, via: u8) -> RunSpec {
+    preempt_run_full(pair, hash_seeds, visit, steps, intruder_parked_at, false, via)
+}
+
+/// `intruder_visit` > 0: the intruder hands the baton back at that visit of its own history. With `victim_first`
+/// false it starts first and waits there until the victim is preempted (then resumes in the middle of its build);
+/// with `victim_first` true the victim starts, is preempted, the intruder runs only up to that visit, the victim
+/// then runs to its end and the intruder finishes last (two preemptions: what the intruder did before its visit is
+/// seen by the rest of the victim's run, and what the victim did after its own preemption by the rest of the
+/// intruder's).
+pub fn preempt_run_full(pair: &PreemptPair, hash_seeds: (u64, u64), visit: u64, steps: u32, intruder_visit: u64, victim_first: bool, via: u8) -> RunSpec {
+    let intruder_parked_at = intruder_visit;
     let mut preempts = vec![];
     if intruder_parked_at > 0 && via != 2 {
         preempts.push(Preempt { client: 1, visit: intruder_parked_at, steps: 0, to: 0, via: 0 });
@@ -950,7 +1044,7 @@ pub fn preempt_run_via(pair: &PreemptPair, hash_seeds: (u64, u64), visit: u64, s
             ClientSpec { hash_seed: hash_seeds.1, ops: pair.intruder.clone() },
         ],
         sites: vec![],
-        sched: SchedSpec::List { decisions: vec![if intruder_parked_at > 0 { 1 } else { 0 }] },
+        sched: SchedSpec::List { decisions: vec![if intruder_parked_at > 0 && !victim_first { 1 } else { 0 }] },
         mailboxes: pair.mailboxes,
         preempts,
     }
